@@ -100,10 +100,10 @@ Definition complete (by_pump : bool) (s : cl) (r : Z) : cl :=
 Definition conclude (s : cl) (r k : Z) : cl :=
   set_concC (emit s (EConc r k (now s))) (concC s ++ [(r, k)]).
 
-(** [if !d.timer.Stop() { <-d.timer.C }] *)
+(** stopTimer: [if !d.timer.Stop() { select { case <-d.timer.C: default: } }] *)
 Definition stop_drain (s : cl) : cl :=
   match tmo s with
-  | TOff => if tok s then set_timer s TOff false else set_stuck s true   (* blocks on the empty channel *)
+  | TOff => set_timer s TOff false   (* an expiry nobody took is discarded; never waits for one (repair F34) *)
   | _ => set_timer s TOff (tok s)
   end.
 
